@@ -75,7 +75,8 @@ MEMBERS = ['C07_plane_intersection_on_both',
            'C07_flipped_sense_lattice_error',
            'C07_hex_lattice_developed',
            'C07_develop_lattice_hex_is_tied',
-           'C07_rhp_is_C03_rhp_linked']
+           'C07_rhp_is_C03_rhp_linked',
+           'C07_hex_base_vectors_trcl_linked']
 TRUSTED = [
     'hand-written model coq/C07/Model.v (modelled, tied by execution only)',
     'binary64 evaluation: the theorems are over R; the model is run at '
